@@ -4,159 +4,108 @@ schedule) are sequences of queue calls, hence simulated by the specification str
 namespace SurfProofs.C16Spec
 open SurfModel.IOQueue SurfModel.PollWrite
 
-theorem written_append (a b : List Ev) : written (a ++ b) = written a ++ written b := by
-  induction a with
-  | nil => simp [written]
-  | cons e es ih => cases e <;> simp [written, ih]
+theorem sim_cons {s : Spec} {ev : Ev} {r : Option (Q × List Ev)} {w1 w2 : List UInt8} {n1 n2 : Bool}
+    (hl : s.Legal ev) (hw : written [ev] = w1) (hn : n1 = true → noDrop [ev])
+    (h2 : Sim (s.apply ev) r w2 n2) :
+    ∃ q2 e2, r = some (q2, e2) ∧ Sim s (some (q2, ev :: e2)) (w1 ++ w2) (n1 && n2) := by
+  obtain ⟨q2, e2, hr, ha, hR, hw2, hn2⟩ := sim_seq (s := s) (e1 := [ev]) ⟨hl, trivial⟩ hw hn h2
+  exact ⟨q2, e2, hr, q2, ev :: e2, rfl, ha, hR, hw2, hn2⟩
 
-theorem noDrop_append (a b : List Ev) : noDrop (a ++ b) ↔ noDrop a ∧ noDrop b := by
-  induction a with
-  | nil => simp [noDrop]
-  | cons e es ih => cases e <;> simp [noDrop, ih]
-
-theorem sim_nil {q : Q} {s : Spec} (h : R q s) : Sim s (some (q, [])) := ⟨q, [], rfl, trivial, h⟩
-
-theorem sim_cons {s : Spec} {ev : Ev} {q2 : Q} {evs : List Ev} (hl : s.Legal ev)
-    (h2 : Sim (s.apply ev) (some (q2, evs))) : Sim s (some (q2, ev :: evs)) := by
-  obtain ⟨q', evs', he, ha, hR⟩ := h2
-  obtain ⟨rfl, rfl⟩ := Prod.mk.inj (Option.some.inj he)
-  exact ⟨_, _, rfl, ⟨hl, ha⟩, hR⟩
-
-theorem injectAll_sim {q : Q} {s : Spec} (bs : List (List UInt8)) (h : R q s) :
-    Sim s (some (injectAll q bs)) := by
+theorem injectAll_sim {q : Q} {s : Spec} (bs : List (List UInt8)) (h : R q s)
+    (hb : s.size + bs.flatten.length ≤ usizeMax) : Sim s (injectAll? q bs) bs.flatten true := by
   induction bs generalizing q s with
-  | nil => exact sim_nil h
-  | cons b bs ih => exact sim_cons trivial (ih (write_R b h))
+  | nil => exact sim_nil h _
+  | cons b bs ih =>
+    simp only [List.flatten_cons, List.length_append] at hb
+    obtain ⟨hw, hr⟩ := write_R b h (by omega)
+    have hl : s.Legal (.write b) := trivial
+    have hsz := size_apply_le hl
+    simp only [written, List.append_nil] at hsz
+    obtain ⟨q2, e2, hr2, hs⟩ := sim_cons (n1 := true) hl (w1 := b) (by simp [written]) (by simp [noDrop])
+      (ih hr (by omega))
+    simpa [injectAll?, hw, hr2] using hs
 
-theorem injectAll_written (q : Q) (bs : List (List UInt8)) :
-    written (injectAll q bs).2 = bs.flatten ∧ noDrop (injectAll q bs).2 := by
-  induction bs generalizing q with
-  | nil => simp [injectAll, written, noDrop]
-  | cons b bs ih => simp [injectAll, written, noDrop, ih]
-
-theorem pollIter_sim {q : Q} {s : Spec} (it : Iter) (h : R q s) : Sim s (pollIter? q it) := by
+theorem pollIter_sim {q : Q} {s : Spec} (it : Iter) (h : R q s)
+    (hb : s.size + it.inject.flatten.length ≤ usizeMax) :
+    Sim s (pollIter? q it) it.inject.flatten true := by
   unfold pollIter?
   cases hw : (if q.isEmpty = true then none else it.writable) with
-  | none => exact injectAll_sim _ h
+  | none => exact injectAll_sim _ h hb
   | some k =>
     obtain ⟨sl, hsl, _, _⟩ := asSlice_of_R h
-    obtain ⟨q', sl', hsl', hq, hleg, hr, _⟩ := consume_R (min k sl.length) h
+    obtain ⟨q', sl', hsl', hq, hleg, hr, _⟩ := consume_R (min k sl.length) h (by omega)
     have e : sl' = sl := by rw [hsl] at hsl'; exact (Option.some.inj hsl').symm
     subst e
-    simp only [hsl, Q.consumeWith?, hq]
-    exact sim_cons hleg (injectAll_sim _ hr)
+    have hsz := size_apply_le hleg
+    simp only [written, List.length_nil, Nat.add_zero] at hsz
+    obtain ⟨q2, e2, hr2, hs⟩ := sim_cons (n1 := true) hleg (w1 := []) (by simp [written]) (by simp [noDrop])
+      (injectAll_sim it.inject hr (by omega))
+    simpa [hsl, Q.consumeWith?, hq, hr2] using hs
 
-theorem pollLoop_sim {q : Q} {s : Spec} (its : List Iter) (h : R q s) : Sim s (pollLoop? q its) := by
+theorem pollLoop_sim {q : Q} {s : Spec} (its : List Iter) (h : R q s)
+    (hb : s.size + ((its.map fun it => it.inject.flatten).flatten).length ≤ usizeMax) :
+    Sim s (pollLoop? q its) ((its.map fun it => it.inject.flatten).flatten) true := by
   induction its generalizing q s with
-  | nil => exact sim_nil h
+  | nil => exact sim_nil h _
   | cons it its ih =>
-    obtain ⟨q1, e1, h1, ha1, hr1⟩ := pollIter_sim it h
-    obtain ⟨q2, e2, h2, ha, hR⟩ := sim_bind ha1 hr1 (ih hr1)
-    exact ⟨q2, e1 ++ e2, by simp [pollLoop?, h1, h2], ha, hR⟩
+    simp only [List.map_cons, List.flatten_cons, List.length_append] at hb
+    obtain ⟨q1, e1, h1, ha1, hr1, hw1, hn1⟩ := pollIter_sim it h (by omega)
+    obtain ⟨q2, e2, h2, ha, hR, hw, hn⟩ := sim_seq ha1 hw1 hn1 (ih hr1 (sim_budget ha1 hw1 hb))
+    exact ⟨q2, e1 ++ e2, by simp [pollLoop?, h1, h2], ha, hR, by simpa using hw, by simpa using hn⟩
 
-theorem poll_sim {q : Q} {s : Spec} (its : List Iter) (h : R q s) : Sim s (poll? q its) := by
+theorem poll_sim {q : Q} {s : Spec} (its : List Iter) (h : R q s)
+    (hb : s.size + ((its.map fun it => it.inject.flatten).flatten).length ≤ usizeMax) :
+    Sim s (poll? q its) ((its.map fun it => it.inject.flatten).flatten) true := by
   obtain ⟨q1, hq1, hr1, _⟩ := flush_R h
-  obtain ⟨q2, evs, h2, ha, hR⟩ := pollLoop_sim its hr1
-  exact ⟨q2, .flush :: evs, by simp [poll?, hq1, h2], ⟨trivial, ha⟩, hR⟩
+  have hl : s.Legal .flush := trivial
+  have hsz := size_apply_le hl
+  simp only [written, List.length_nil, Nat.add_zero] at hsz
+  obtain ⟨q2, e2, hr2, hs⟩ := sim_cons (n1 := true) hl (w1 := []) (by simp [written]) (by simp [noDrop])
+    (pollLoop_sim its hr1 (by omega))
+  simpa [poll?, hq1, hr2] using hs
 
-theorem tstep_sim {q : Q} {s : Spec} (op : TOp) (h : R q s) : Sim s (tstep? q op) := by
+theorem framesDrop_sim {q : Q} {s : Spec} (sizeEsc : Bool) (h : R q s)
+    (hb : s.size + (opWritten sizeEsc .drop).length ≤ usizeMax) :
+    Sim s (framesDrop? sizeEsc q) (opWritten sizeEsc .drop) false := by
+  obtain ⟨q', hq, hleg, hr, _⟩ := clear_R h
+  have hsz := size_apply_le hleg
+  simp only [written, List.length_nil, Nat.add_zero] at hsz
+  cases sizeEsc with
+  | false =>
+    simp only [framesDrop?, hq, opWritten]
+    exact sim_one hleg hr (by simp [written]) (by simp)
+  | true =>
+    simp only [opWritten, if_true] at hb
+    obtain ⟨hw, hr2⟩ := write_R getTermSize hr (by omega)
+    simp only [framesDrop?, hq, if_true, hw, opWritten]
+    exact ⟨_, _, rfl, ⟨hleg, trivial, trivial⟩, hr2, by simp [written], by simp⟩
+
+theorem tstep_sim {q : Q} {s : Spec} (sizeEsc : Bool) (op : TOp) (h : R q s)
+    (hb : s.size + (opWritten sizeEsc op).length ≤ usizeMax) :
+    Sim s (tstep? sizeEsc q op) (opWritten sizeEsc op) (!isDrop op) := by
   cases op with
-  | write b => exact sim_one trivial (write_R b h)
+  | write b =>
+    obtain ⟨hw, hr⟩ := write_R b h hb
+    simp only [tstep?, hw]
+    exact sim_one trivial hr (by simp [written, opWritten]) (by simp [noDrop])
   | flush =>
     obtain ⟨q', hq, hr, _⟩ := flush_R h
     simp only [tstep?, hq]
-    exact sim_one trivial hr
-  | drop =>
-    obtain ⟨q', hq, hleg, hr, _⟩ := clear_R h
-    simp only [tstep?, hq]
-    exact sim_one hleg hr
-  | poll its => exact poll_sim its h
+    exact sim_one trivial hr (by simp [written, opWritten]) (by simp [noDrop])
+  | drop => exact framesDrop_sim sizeEsc h hb
+  | poll its => exact poll_sim its h hb
 
-theorem trun_sim {q : Q} {s : Spec} (ops : List TOp) (h : R q s) : Sim s (trun? q ops) := by
+theorem trun_sim {q : Q} {s : Spec} (sizeEsc : Bool) (ops : List TOp) (h : R q s)
+    (hb : s.size + (progWritten sizeEsc ops).length ≤ usizeMax) :
+    Sim s (trun? sizeEsc q ops) (progWritten sizeEsc ops) (ops.all fun op => !isDrop op) := by
   induction ops generalizing q s with
-  | nil => exact sim_nil h
+  | nil => exact sim_nil h _
   | cons op ops ih =>
-    obtain ⟨q1, e1, h1, ha1, hr1⟩ := tstep_sim op h
-    obtain ⟨q2, e2, h2, ha, hR⟩ := sim_bind ha1 hr1 (ih hr1)
-    exact ⟨q2, e1 ++ e2, by simp [trun?, h1, h2], ha, hR⟩
-
-/-! ### which bytes a call queues -/
-
-theorem pollIter_written {q q' : Q} {evs : List Ev} (it : Iter) (h : pollIter? q it = some (q', evs)) :
-    written evs = it.inject.flatten ∧ noDrop evs := by
-  unfold pollIter? at h
-  split at h
-  · have e : (injectAll q it.inject).2 = evs := congrArg Prod.snd (Option.some.inj h)
-    rw [← e]; exact injectAll_written _ _
-  · split at h
-    · cases h
-    · simp only at h
-      split at h
-      · cases h
-      · have e := congrArg Prod.snd (Option.some.inj h)
-        simp only at e
-        rw [← e]; simp [written, noDrop, injectAll_written]
-
-theorem pollLoop_written {q q' : Q} {evs : List Ev} (its : List Iter) (h : pollLoop? q its = some (q', evs)) :
-    written evs = (its.map fun it => it.inject.flatten).flatten ∧ noDrop evs := by
-  induction its generalizing q q' evs with
-  | nil => simp only [pollLoop?] at h; cases h; simp [written, noDrop]
-  | cons it its ih =>
-    simp only [pollLoop?] at h
-    split at h
-    · cases h
-    · rename_i q1 e1 h1
-      split at h
-      · cases h
-      · rename_i q2 e2 h2
-        cases h
-        have a := pollIter_written it h1
-        have b := ih h2
-        simp [written_append, noDrop_append, a, b]
-
-theorem tstep_written {q q' : Q} {evs : List Ev} (op : TOp) (h : tstep? q op = some (q', evs)) :
-    written evs = opWritten op ∧ (isDrop op = false → noDrop evs) := by
-  cases op with
-  | write b => simp only [tstep?] at h; cases h; simp [written, opWritten, noDrop]
-  | flush =>
-    simp only [tstep?] at h
-    split at h
-    · cases h; simp [written, opWritten, noDrop]
-    · cases h
-  | drop =>
-    simp only [tstep?] at h
-    split at h
-    · cases h; simp [written, opWritten, isDrop]
-    · cases h
-  | poll its =>
-    simp only [tstep?, poll?] at h
-    split at h
-    · cases h
-    · split at h
-      · cases h
-      · rename_i q2 e2 h2
-        cases h
-        have a := pollLoop_written its h2
-        simp [written, opWritten, noDrop, a]
-
-theorem trun_written {q q' : Q} {evs : List Ev} (ops : List TOp) (h : trun? q ops = some (q', evs)) :
-    written evs = progWritten ops ∧ ((∀ op ∈ ops, isDrop op = false) → noDrop evs) := by
-  induction ops generalizing q q' evs with
-  | nil => simp only [trun?] at h; cases h; simp [written, progWritten, noDrop]
-  | cons op ops ih =>
-    simp only [trun?] at h
-    split at h
-    · cases h
-    · rename_i q1 e1 h1
-      split at h
-      · cases h
-      · rename_i q2 e2 h2
-        cases h
-        have a := tstep_written op h1
-        have b := ih h2
-        refine ⟨by simp [written_append, progWritten, a.1, b.1], ?_⟩
-        intro hall
-        rw [noDrop_append]
-        exact ⟨a.2 (hall op (by simp)), b.2 (fun o ho => hall o (by simp [ho]))⟩
+    have hsplit : progWritten sizeEsc (op :: ops) = opWritten sizeEsc op ++ progWritten sizeEsc ops := by
+      simp [progWritten]
+    rw [hsplit, List.length_append] at hb
+    obtain ⟨q1, e1, h1, ha1, hr1, hw1, hn1⟩ := tstep_sim sizeEsc op h (by omega)
+    obtain ⟨q2, e2, h2, ha, hR, hw, hn⟩ := sim_seq ha1 hw1 hn1 (ih hr1 (sim_budget ha1 hw1 hb))
+    exact ⟨q2, e1 ++ e2, by simp [trun?, h1, h2], ha, hR, by rw [hw, hsplit], by simpa using hn⟩
 
 end SurfProofs.C16Spec
